@@ -104,7 +104,8 @@ def run_range(spec, res, only_prefix=None):
         if f:
             res.violation('range:{}'.format(f.split(' ')[0]), '{} (workers={}, stop={})'.format(f, nw, stop), {'part': 'a', 'workers': nw, 'stop': stop, 'choices': ex.choices})
             return False
-    n = sched.explore(lambda p: range_execution(nw, stop, p), spec['bound'], on, part=tuple(spec['split']) if spec.get('split') else None, split_depth=min(2, spec['bound']))
+    n = sched.explore(lambda p: range_execution(nw, stop, p), spec['bound'], on, part=tuple(spec['split']) if spec.get('split') else None, split_depth=min(2, spec['bound']),
+                      symmetric=True)   # identical workers iterating one range: which one moves first is a renaming
     res.sample({'part': 'a', 'workers': nw, 'stop': stop, 'executions': n})
 
 
